@@ -38,10 +38,14 @@ impl Point {
     pub fn expect(&self) -> Expect {
         let unimock_on = self.unimock.map(|u| u.0).unwrap_or(self.feature);
         Expect {
-            unimock_emitted: unimock_on && (self.mock_api || self.target == "trait"),
+            unimock_emitted: unimock_on && (self.mock_api || self.is_trait()),
             mockall_emitted: self.mockall.map(|m| m.0).unwrap_or(false),
             exported: self.export.map(|e| e.0).unwrap_or(self.export_macro),
         }
+    }
+    /// an entraited trait, with or without a delegation target
+    pub fn is_trait(&self) -> bool {
+        self.target == "trait" || self.target == "trait_target"
     }
     fn opt(name: &str, v: Option<(bool, bool)>) -> Option<String> {
         v.map(|(val, bare)| if bare && val { name.to_string() } else { format!("{name} = {val}") })
@@ -71,6 +75,8 @@ impl Point {
         let o = self.options(order);
         match self.target {
             "trait" => o.join(", "),
+            // a delegation target next to the options: the mocks belong to the entraited trait, not to the target trait
+            "trait_target" => std::iter::once(["TheTraitImpl, delegate_by = DelegateTheTrait", "TheTraitImpl, delegate_by = ref"][order % 2].to_string()).chain(o).collect::<Vec<_>>().join(", "),
             _ => std::iter::once(format!("{}TheTrait", Self::vis(order))).chain(o).collect::<Vec<_>>().join(", "),
         }
     }
@@ -115,8 +121,8 @@ pub fn lattice() -> Vec<Point> {
             for unimock in tri(true) {
                 for mock_api in [false, true] {
                     for mockall in tri(true) {
-                        for target in ["fn", "mod", "trait", "fn_concrete"] {
-                            let exports = if target == "trait" { vec![None] } else { tri(true) };
+                        for target in ["fn", "mod", "trait", "fn_concrete", "trait_target"] {
+                            let exports = if target.starts_with("trait") { vec![None] } else { tri(true) };
                             for export in exports {
                                 out.push(Point { export_macro, feature, unimock, mock_api, mockall, export, target });
                             }
@@ -204,6 +210,17 @@ fn final_trait_attrs(p: &Point, tr: &syn::ItemTrait) -> Result<Vec<syn::Attribut
 pub fn judge_tokens(p: &Point, ts: proc_macro2::TokenStream) -> Result<(), String> {
     let file: syn::File = syn::parse2(ts).map_err(|e| format!("expansion does not parse: {e}"))?;
     let tr = find_trait(&file).ok_or("no trait `TheTrait` in the expansion")?;
+    // no other generated trait (delegation target, selector) derives a mock
+    for it in &file.items {
+        if let syn::Item::Trait(other) = it {
+            if other.ident != "TheTrait" {
+                let ((uni, _), (mal, _)) = observe(&other.attrs)?;
+                if uni || mal {
+                    return Err(format!("the generated trait `{}` carries a {} derivation (mocks belong to the entraited trait only)", other.ident, if uni { "unimock" } else { "mockall" }));
+                }
+            }
+        }
+    }
     let attrs = final_trait_attrs(p, tr)?;
     let ((uni, uni_gated), (mal, mal_gated)) = observe(&attrs)?;
     let want = p.expect();
@@ -306,7 +323,8 @@ fn e2_case(p: &Point, id: &str) -> String {
 fn e2_leg(ctx: &mut Ctx, points: &[Point]) -> bool {
     for feature in [false, true] {
         for cfg_test in [false, true] {
-            let pts: Vec<&Point> = points.iter().filter(|p| p.feature == feature).collect();
+            // (points with a delegation target are judged on the tokens only: E1)
+            let pts: Vec<&Point> = points.iter().filter(|p| p.feature == feature && p.target != "trait_target").collect();
             let mut batch = Batch::new(&format!("c10-{}-{}", if feature { "unimock" } else { "plain" }, if cfg_test { "test" } else { "notest" }), Opts { feature_unimock: feature, cfg_test, members: if cfg_test { 4 } else { 16 }, ..Default::default() });
             for (i, p) in pts.iter().enumerate() {
                 let id = format!("c{i:05}");
